@@ -4,6 +4,7 @@ import (
 	"bytes"
 	"fmt"
 	"io"
+	"strconv"
 	"strings"
 	"unicode"
 	"unicode/utf8"
@@ -359,14 +360,7 @@ func (l *Lexer) quotedToken() (Token, error) {
 				l.backup()
 			}
 
-			s := l.chunk()
-
-			// Checks if it contains invalid octal or hexadecimal escape sequences.
-			if strings.ContainsRune(unquote(s), utf8.RuneError) {
-				return Token{kind: tokenInvalid, val: s}, nil
-			}
-
-			return Token{kind: tokenQuoted, val: s}, nil
+			return Token{kind: tokenQuoted, val: l.chunk()}, nil
 		case r == '\\':
 			l.accept(r)
 			switch r, err := l.rawNext(); {
@@ -408,14 +402,27 @@ func (l *Lexer) escapeSequence(cont func() (Token, error)) (Token, error) {
 	}
 }
 
+// numericEscape finishes the octal or hexadecimal escape sequence whose digits start at the offset start of the buffer.
+// If the digits don't denote a character, the token it belongs to is read to its end and is invalid as a whole.
+func (l *Lexer) numericEscape(start, base int, cont func() (Token, error)) (Token, error) {
+	c, err := strconv.ParseInt(string(l.buf.Bytes()[start:]), base, 32)
+	valid := err == nil && utf8.ValidRune(rune(c))
+	l.accept('\\')
+	t, err := cont()
+	if err == nil && !valid {
+		t.kind = tokenInvalid
+	}
+	return t, err
+}
+
 func (l *Lexer) octalEscapeSequence(cont func() (Token, error)) (Token, error) {
+	start := l.buf.Len() - 1 // The first digit is already in.
 	for {
 		switch r, err := l.rawNext(); {
 		case err != nil:
 			return Token{}, err
 		case r == '\\':
-			l.accept(r)
-			return cont()
+			return l.numericEscape(start, 8, cont)
 		case isOctalDigitChar(r):
 			l.accept(r)
 			continue
@@ -427,6 +434,7 @@ func (l *Lexer) octalEscapeSequence(cont func() (Token, error)) (Token, error) {
 }
 
 func (l *Lexer) hexadecimalEscapeSequence(cont func() (Token, error)) (Token, error) {
+	start := l.buf.Len()
 	switch r, err := l.rawNext(); {
 	case err != nil:
 		return Token{}, err
@@ -442,8 +450,7 @@ func (l *Lexer) hexadecimalEscapeSequence(cont func() (Token, error)) (Token, er
 		case err != nil:
 			return Token{}, err
 		case r == '\\':
-			l.accept(r)
-			return cont()
+			return l.numericEscape(start, 16, cont)
 		case isHexadecimalDigitChar(r):
 			l.accept(r)
 			continue
